@@ -745,6 +745,8 @@ func (g *genr) genCase() []gop {
 	}
 	var datas []dref
 	nInt := 0
+	clock := 0
+	var deads []int
 	handlersOn := g.r.Intn(3) == 0
 	related := func() []int {
 		if len(expressed) > 0 && g.r.Intn(5) > 0 {
@@ -803,6 +805,11 @@ func (g *genr) genCase() []gop {
 				}
 			}
 			expressed = append(expressed, o.name)
+			if o.life >= 0 {
+				deads = append(deads, clock+o.life)
+			} else {
+				deads = append(deads, clock+4000)
+			}
 			ops = append(ops, o)
 		case x < 56:
 			o := gop{kind: "data", name: related(), cid: g.r.Intn(3)}
@@ -825,7 +832,16 @@ func (g *genr) genCase() []gop {
 			}
 			ops = append(ops, o)
 		case x < 90 || !handlersOn:
-			ops = append(ops, gop{kind: "adv", ms: g.pick(advances)})
+			ms := g.pick(advances)
+			if len(deads) > 0 && g.r.Intn(3) == 0 {
+				// straddle a deadline (d-1, d, d+1) or the instant of its timeout timer (d+10 +- 1)
+				ms = deads[g.r.Intn(len(deads))] - clock + g.pick([]int{-1, 0, 1, 9, 10, 11})
+				if ms < 0 {
+					ms = 0
+				}
+			}
+			clock += ms
+			ops = append(ops, gop{kind: "adv", ms: ms})
 		default:
 			switch g.r.Intn(5) {
 			case 0, 1:
@@ -954,7 +970,7 @@ func watchdog(out *bufio.Writer, cur *atomic.Value, stop chan struct{}) {
 			continue
 		}
 		stall++
-		if stall >= 6 {
+		if stall >= 16 { // 8 s of wall clock without finishing a single operation
 			ops, _ := cur.Load().([]gop)
 			fmt.Fprintf(out, "deadlock at-op %d\n", now)
 			for _, g := range ops {
